@@ -23,7 +23,9 @@ HARNESS = os.path.join(ROOT, "harness")
 REPO = os.environ.get("SQV_REPO", "/repo")
 TARGET = os.path.join(CACHE, "target")
 RUSTFLAGS = "--cfg sqruff_verif -Ctarget-cpu=native"
-ENV = dict(os.environ, CARGO_NET_OFFLINE="true", CARGO_TARGET_DIR=TARGET, RUSTFLAGS=RUSTFLAGS)
+os.makedirs(os.path.join(CACHE, "scratch"), exist_ok=True)
+ENV = dict(os.environ, CARGO_NET_OFFLINE="true", CARGO_TARGET_DIR=TARGET, RUSTFLAGS=RUSTFLAGS,
+           SQV_SCRATCH=os.path.join(CACHE, "scratch"))
 
 FORBIDDEN = re.compile(
     r"\b(Admitted|admit|Axiom|Axioms|Parameter|Parameters|Conjecture|Admit Obligations|bypass_check|"
